@@ -14,7 +14,7 @@
    Css/TokWfBuild.v. *)
 From Verif Require Import Css.Ser Css.RetokSpec Css.SerWf Css.SerProofs Css.RoundTripTok Css.RoundTripSep
   Css.RoundTripList Css.RoundTripBuild Css.TokWfLex Css.TokWfBuild Css.SerCompound Css.SerCompoundProofs
-  Css.SerCompoundProofs2.
+  Css.SerCompoundProofs2 Css.SerCompoundProofs3.
 From Coq Require Import List NArith Bool.
 Import ListNotations.
 Open Scope N_scope.
@@ -246,6 +246,18 @@ Theorem C20_compound_roundtrip_partial3 : forall c s,
   read_back c (norm (tokenize true s)) = Some (norm_compound c).
 Proof. exact compound_roundtrip3. Qed.
 Print Assumptions C20_compound_roundtrip_partial3.
+
+(* The case excluded by partial3 (Css/SerCompoundProofs3.v).  Finding: the model
+   does NOT refute the statement there.  Instances, NOT the general case: the
+   two declarations  a:<!important  and  a: b <!important  (value ending in the
+   delimiter "<", compound_bang_ok = false) are well-formed, are written without
+   any separator between "<" and "!", and tokenize / read back to themselves
+   (a CDO token needs "<!--").  `C20_compound_roundtrip_statement` itself stays
+   open for the class compound_bang_ok c = false; expected to hold. *)
+Theorem C20_compound_roundtrip_bang_lt_instances :
+  roundtrip_at lt_decl /\ roundtrip_at lt_decl2.
+Proof. exact lt_decl_roundtrips. Qed.
+Print Assumptions C20_compound_roundtrip_bang_lt_instances.
 
 Module C20CompoundExamples.
 Import Coq.Strings.String.
